@@ -13,7 +13,7 @@ import (
 	"github.com/alecthomas/participle/v2/lexer"
 )
 
-const vhMaxTokens = 5 // @tier quick=5 thorough=7
+const vhMaxTokens = 5 // @tier quick=5 thorough=6
 
 // ---------- symbolic token streams ----------
 
